@@ -15,7 +15,7 @@ ASSUMPTIONS = c07.ASSUMPTIONS
 
 FAULTS = [('source', 'absent'), ('source_error', 'reader'), ('source_error', 'generic'),
           ('source', 'truncated'), ('source', 'lexerr'), ('source', 'synerr'), ('source', 'unresolved'),
-          ('source', 'dupsym'), ('source', 'ghost'), ('source', 'ghostdefval'), ('source', 'empty'),
+          ('source', 'dupsym'), ('source', 'ghost'), ('source', 'ghostdefval'), ('source', 'oidloop'), ('source', 'oidself'), ('source', 'empty'),
           ('parser', 'parser'),
           ('codegen', 'codegen'), ('codegen', 'semantic')]
 OPTS = [{}, {'ignoreErrors': True}, {'noDeps': True}, {'noDeps': True, 'ignoreErrors': True},
